@@ -462,7 +462,18 @@ func runC34(c *Ctx) {
 				norm := seg
 				switch {
 				case strings.Contains(seg, "pubSubPartitionHashTag("):
+					// the partition is a function of the channel: name the index function, so that two
+					// builders hashing the channel differently do not count as the same tag
 					norm = "⟨partition tag of the channel⟩"
+					if i := strings.Index(seg, "pubSubPartitionHashTag("); i >= 0 {
+						rest := seg[i+len("pubSubPartitionHashTag("):]
+						if j := strings.Index(rest, ", "); j >= 0 {
+							rest = rest[j+2:]
+							if k := strings.Index(rest, "("); k > 0 && rest[:k] != "consistentIndex" {
+								norm = "⟨partition tag of the channel via " + rest[:k] + "⟩"
+							}
+						}
+					}
 				case seg == "⟨strparam#0⟩":
 					norm = "⟨channel⟩"
 				}
@@ -499,7 +510,7 @@ func runC34(c *Ctx) {
 					guarded := false
 					c.CheckAt("C34.R3", g.name+" ["+cfg+"]: the raw channel used as hash tag cannot start with '}'", "", guarded,
 						"Redis takes the text between the first '{' and the next '}' as the hash tag and hashes the whole key when that text is empty: for a channel that starts with '}' the tag is empty, the keys of one script call hash to different slots and the script fails with CROSSSLOT")
-				} else if sg == "⟨partition tag of the channel⟩" {
+				} else if strings.HasPrefix(sg, "⟨partition tag of the channel") {
 					c.CheckAt("C34.R3", g.name+" ["+cfg+"]: the partition tag is never empty and holds no '{', '}' or '.'", "", partitionTagsClean(c), "strconv.Itoa of an index, or a precomputed tag")
 				} else {
 					c.CheckAt("C34.R3", g.name+" ["+cfg+"]: hash tag operand recognised", "", false, sg)
